@@ -505,6 +505,8 @@ def chunks(fns, src, nmax, which='chunks_from_slice', ctfe=False, name=None):
     res = Result(name or which, ['C10', 'C18'] if ctfe else ['C10'], 'all 64-bit N and slice lengths L%s; division via fresh quotient/remainder and the division lemma' % (' (MIR FOR CTFE body)' if ctfe else ''))
     S = Arr('S', L)
     st = new_state()
+    # size_of::<GenericArray<T, N>>() = N * size_of::<T>() (C01); element sizes up to 2^32 keep the product in range
+    st.pc += [ULE(ex.S, bv(2 ** 32)), ex.SZ == N * ex.S] if is_int() else [(ex.SZ == 0) == z3.Or(N == 0, ex.S == 0)]
     fn = ex.find_fn('GenericArray::<T, N>::' + which)
     t0, paths, unw = time.time(), 0, 0
     seen = set()
